@@ -27,6 +27,9 @@ def main():
     if out.strip():
         print('/repo has uncommitted changes'); sys.exit(2)
     table = {}
+    mp0 = os.path.join(ROOT, 'seeded', 'MATRIX.json')
+    if only and os.path.exists(mp0):
+        table = json.load(open(mp0))
     for sd in seeds:
         if only and sd not in only:
             continue
